@@ -258,8 +258,10 @@ def _same_meta(m1, m2):
     cite="For each correction class ... {array, scalar image, optical image, series} x {overwrite on/off} x random shapes and dtypes; neutral parameters leave pixel values unchanged",
     note="bounded: the real OpenCV / skimage based corrections on seeded random images (12 x 14, float64 and uint8)")
 def c10_classes(ctx, cls, kind):
-    rng = np.random.default_rng(ctx.rng.randrange(1 << 30))
+    seed = ctx.rng.randrange(1 << 30)
+    rng = np.random.default_rng(seed)
     active, neutral = _build(cls, rng)
+    ref_active, ref_neutral = _build(cls, np.random.default_rng(seed))          # independent objects for the reference values
     colour_only = cls in ("illumination", "drift")
     scalar_only = cls in ()
     if (colour_only and kind == "scalar"):
@@ -270,16 +272,20 @@ def c10_classes(ctx, cls, kind):
     dtypes = [np.float64] if cls.startswith("type") is False else [np.float64, np.uint8]
     for dt in dtypes:
         raw = rng.random(shape) if dt is np.float64 else (255 * rng.random(shape)).astype(np.uint8)
-        for corr, label in ((active, "active"), (neutral, "neutral")):
+        for corr, rcorr, label in ((active, ref_active, "active"), (neutral, ref_neutral, "neutral")):
             if corr is None:
                 continue
             ctx.tick()
             if kind == "series":
-                ref = np.stack([corr.correct_array(raw[:, :, t, :].copy()) for t in range(3)], axis=2)
+                ref = np.stack([np.array(rcorr.correct_array(raw[:, :, t, :].copy())) for t in range(3)], axis=2)
             else:
                 arg = raw.copy()
-                ref = corr.correct_array(arg)
+                ref = np.array(rcorr.correct_array(arg))
                 ctx.ensure(f"{label}/{dt.__name__}: correct_array does not write its argument", bool(np.array_equal(arg, raw)))
+                first = corr.correct_array(raw.copy())
+                keep = np.array(first)
+                corr.correct_array(np.ascontiguousarray(raw[::-1]).copy())
+                ctx.ensure(f"{label}/{dt.__name__}: an earlier result is not altered by a later call of the same correction", bool(np.array_equal(first, keep)))
             for overwrite in (False, True):
                 data = raw.copy()
                 inp = _mk(kind, data)
